@@ -457,8 +457,10 @@ package storage
 
 //@ spec heightsSubset(r) = same(r.heights) && forall(x bitcoin.Hash32, has(r.heights, x) ==> old(has(r.heights, x)) && r.heights[x] == old(r.heights[x]))
 
+// (C12: the untrusted-header gate asks this index whether a header is known; a reverted block that
+// stayed "known" would let a peer on an abandoned fork pass the gate)
 //@ func (*BlockRepository).Revert
-//@   serves C09 C10 C02
+//@   serves C09 C10 C02 C12
 //@   atomic mutex
 //@   safety index nil
 //@   requires InvMem(repo) && InvFull(repo) && InvTop(repo) && InvNewest(repo)
